@@ -315,6 +315,28 @@ type seq struct {
 type failure struct {
 	clause string
 	detail string
+	names  []string // git-view: the names whose lines differ
+}
+
+// lineNames extracts the ref names from differing view lines.
+func lineNames(diff string) []string {
+	seen := map[string]bool{}
+	var out []string
+	for _, part := range strings.Split(diff, "}") {
+		i := strings.Index(part, "{")
+		if i < 0 {
+			continue
+		}
+		for _, w := range strings.Fields(part[i+1:]) {
+			w = strings.TrimSuffix(w, "^{}")
+			if (w == "HEAD" || strings.HasPrefix(w, "refs/")) && !seen[w] {
+				seen[w] = true
+				out = append(out, w)
+				break
+			}
+		}
+	}
+	return out
 }
 
 func (s *seq) open() {
@@ -624,18 +646,18 @@ func (s *seq) compareGit(full bool) *failure {
 		return nil
 	}
 	if got.stderr != "" {
-		return &failure{"git-error", got.stderr}
+		return &failure{clause: "git-error", detail: got.stderr}
 	}
 	want := s.expectedView()
 	if d := diffLines(want.forEach, got.forEach); d != "" {
-		return &failure{"git-view", "for-each-ref: " + d}
+		return &failure{clause: "git-view", detail: "for-each-ref: " + d, names: lineNames(d)}
 	}
 	if d := diffLines(want.showRef, got.showRef); d != "" {
-		return &failure{"git-view", "show-ref --head -d: " + d}
+		return &failure{clause: "git-view", detail: "show-ref --head -d: " + d, names: lineNames(d)}
 	}
 	for n, t := range want.syms {
 		if g, asked := got.syms[n]; asked && g != t {
-			return &failure{"git-view", fmt.Sprintf("symbolic-ref %s: model %q git %q", n, t, got.syms[n])}
+			return &failure{clause: "git-view", detail: fmt.Sprintf("symbolic-ref %s: model %q git %q", n, t, got.syms[n]), names: []string{n}}
 		}
 	}
 	s.c.Count("git_views_agreeing", 1)
@@ -651,19 +673,19 @@ func (s *seq) compareReads() *failure {
 		var ref *plumbing.Reference
 		var err error
 		if p, st := vf.Catch(func() { ref, err = s.st.Reference(plumbing.ReferenceName(n)) }); p != nil {
-			return &failure{"panic", fmt.Sprintf("Reference(%s) panicked: %v\n%s", n, p, st)}
+			return &failure{clause: "panic", detail: fmt.Sprintf("Reference(%s) panicked: %v\n%s", n, p, st)}
 		}
 		s.c.Count("reads", 1)
 		want, ok := s.m[n]
 		switch {
 		case ok && err != nil:
-			return &failure{"read", fmt.Sprintf("Reference(%s): error %q, map holds %s", n, err, want.Val())}
+			return &failure{clause: "read", detail: fmt.Sprintf("Reference(%s): error %q, map holds %s", n, err, want.Val())}
 		case ok && fromRef(ref) != want:
-			return &failure{"read", fmt.Sprintf("Reference(%s) = %s, map holds %s", n, fromRef(ref).Val(), want.Val())}
+			return &failure{clause: "read", detail: fmt.Sprintf("Reference(%s) = %s, map holds %s", n, fromRef(ref).Val(), want.Val())}
 		case !ok && err == nil:
-			return &failure{"read", fmt.Sprintf("Reference(%s) = %s, map has no such name", n, fromRef(ref).Val())}
+			return &failure{clause: "read", detail: fmt.Sprintf("Reference(%s) = %s, map has no such name", n, fromRef(ref).Val())}
 		case !ok && !errors.Is(err, plumbing.ErrReferenceNotFound):
-			return &failure{"read", fmt.Sprintf("Reference(%s): error %q instead of reference-not-found", n, err)}
+			return &failure{clause: "read", detail: fmt.Sprintf("Reference(%s): error %q instead of reference-not-found", n, err)}
 		}
 	}
 	var got []string
@@ -680,17 +702,17 @@ func (s *seq) compareReads() *failure {
 			return nil
 		})
 	}); p != nil {
-		return &failure{"panic", fmt.Sprintf("IterReferences panicked: %v\n%s", p, st)}
+		return &failure{clause: "panic", detail: fmt.Sprintf("IterReferences panicked: %v\n%s", p, st)}
 	}
 	s.c.Count("listings", 1)
 	if err != nil {
-		return &failure{"iter", fmt.Sprintf("IterReferences: error %q", err)}
+		return &failure{clause: "iter", detail: fmt.Sprintf("IterReferences: error %q", err)}
 	}
 	sort.Strings(got)
 	want := s.m.Lines()
 	sort.Strings(want)
 	if d := diffLines(want, got); d != "" {
-		return &failure{"iter", "IterReferences: " + strings.ReplaceAll(d, "git-only", "gogit-only")}
+		return &failure{clause: "iter", detail: "IterReferences: " + strings.ReplaceAll(d, "git-only", "gogit-only")}
 	}
 	return nil
 }
@@ -823,7 +845,7 @@ func (s *seq) apply(o op, pre *disk) (*failure, string) {
 	var err error
 	run := func(f func() error) *failure {
 		if p, st := vf.Catch(func() { err = f() }); p != nil {
-			return &failure{"panic", fmt.Sprintf("%s panicked: %v\n%s", o, p, st)}
+			return &failure{clause: "panic", detail: fmt.Sprintf("%s panicked: %v\n%s", o, p, st)}
 		}
 		return nil
 	}
@@ -836,7 +858,7 @@ func (s *seq) apply(o op, pre *disk) (*failure, string) {
 		conflict := !exists && s.m.DFConflict(o.name)
 		if err != nil {
 			if !conflict {
-				return &failure{"op-refused", fmt.Sprintf("SetReference(%s) failed: %v (%s)", o.val, err, map[bool]string{true: "the name already exists in the store", false: "no conflicting name exists"}[exists])}, cls
+				return &failure{clause: "op-refused", detail: fmt.Sprintf("SetReference(%s) failed: %v (%s)", o.val, err, map[bool]string{true: "the name already exists in the store", false: "no conflicting name exists"}[exists])}, cls
 			}
 			s.c.Count("df_conflict_refused", 1)
 		} else {
@@ -853,12 +875,12 @@ func (s *seq) apply(o op, pre *disk) (*failure, string) {
 		switch o.cas {
 		case refmodel.CASMatch:
 			if err != nil {
-				return &failure{"op-refused", fmt.Sprintf("CheckAndSetReference(%s, old=%s) failed: %v although old equals the stored value", o.val, o.old.Val(), err)}, cls
+				return &failure{clause: "op-refused", detail: fmt.Sprintf("CheckAndSetReference(%s, old=%s) failed: %v although old equals the stored value", o.val, o.old.Val(), err)}, cls
 			}
 			s.m.Set(o.val)
 		default:
 			if err == nil {
-				return &failure{"op-accepted", fmt.Sprintf("CheckAndSetReference(%s, old=%s) succeeded although the stored value is %s", o.val, o.old.Val(), curVal(s.m, o.name))}, cls
+				return &failure{clause: "op-accepted", detail: fmt.Sprintf("CheckAndSetReference(%s, old=%s) succeeded although the stored value is %s", o.val, o.old.Val(), curVal(s.m, o.name))}, cls
 			}
 			if o.cas == refmodel.CASMismatch && !errors.Is(err, storage.ErrReferenceHasChanged) {
 				s.c.Count("cas_mismatch_other_error", 1)
@@ -870,7 +892,7 @@ func (s *seq) apply(o op, pre *disk) (*failure, string) {
 		}
 		if err != nil {
 			if _, exists := s.m[o.name]; exists {
-				return &failure{"op-refused", fmt.Sprintf("RemoveReference(%s) failed: %v; the reference stays", o.name, err)}, cls
+				return &failure{clause: "op-refused", detail: fmt.Sprintf("RemoveReference(%s) failed: %v; the reference stays", o.name, err)}, cls
 			}
 			s.c.Count("remove_absent_returned_error", 1)
 		}
@@ -880,7 +902,7 @@ func (s *seq) apply(o op, pre *disk) (*failure, string) {
 			return f, cls
 		}
 		if err != nil {
-			return &failure{"op-refused", fmt.Sprintf("PackRefs failed: %v", err)}, cls
+			return &failure{clause: "op-refused", detail: fmt.Sprintf("PackRefs failed: %v", err)}, cls
 		}
 	case "reopen":
 		s.open()
@@ -890,7 +912,7 @@ func (s *seq) apply(o op, pre *disk) (*failure, string) {
 			args = append(args, "--no-prune")
 		}
 		if res := s.g.Run(s.work, args...); !res.OK() {
-			return &failure{"git-error", fmt.Sprintf("git pack-refs failed on the directory go-git maintained: %s", res)}, cls
+			return &failure{clause: "git-error", detail: fmt.Sprintf("git pack-refs failed on the directory go-git maintained: %s", res)}, cls
 		}
 	case "git-update":
 		if s.gitSet(o.val) {
@@ -964,6 +986,25 @@ func (s *seq) key(f *failure, o op, cls string, pre, post *disk) string {
 			if cur, ok := s.m[o.name]; ok && cur.Sym && cur.Target != o.old.Target {
 				return "cas-accepted:symbolic-old-target-differs"
 			}
+		}
+	}
+	if f.clause == "git-view" && len(f.names) > 0 {
+		// git cannot resolve a packed-only ref whose loose path is occupied by a nested/parent loose ref
+		// that go-git accepted (a state git itself never creates)
+		all := true
+		for _, n := range f.names {
+			if n == "HEAD" {
+				if h, ok := s.m["HEAD"]; ok && h.Sym {
+					n = h.Target
+				}
+			}
+			sh := post.shadow(n)
+			if !(strings.HasPrefix(post.class(n), "packed") && (sh == "nonempty-dir" || sh == "parent-is-file")) {
+				all = false
+			}
+		}
+		if all {
+			return "git-view:packed-ref-shadowed-by-nested-loose-ref"
 		}
 	}
 	if f.clause == "op-refused" && (o.kind == "set" || o.kind == "cas" || o.kind == "remove") {
